@@ -84,6 +84,9 @@ class EG:
             return ["idx", ["f", d(st.sampled_from(["s", "s", "d"]))], i]
         if t == 9:
             return self.chooses(depth)
+        if t == 10 and chance(d, 0.35):
+            # the documented shape: a bare field owns the selector and every option is a constant
+            return ["ite", self.intfield(), self.const(), self.const(), d(st.sampled_from(["list", "pos"]))]
         if t == 10:
             form = d(st.sampled_from(["list", "pos"]))
             return ["ite", self.deferred(self.intexpr(depth + 1)), self.intexpr(depth + 1), self.intexpr(depth + 1), form]
@@ -128,6 +131,12 @@ class EG:
         d = self.d
         n = d(st.integers(2, 4))
         form = d(st.sampled_from(["list", "pos", "dict", "kw", "dict-str"]))
+        if form in ("list", "pos", "dict") and chance(d, 0.3):
+            # the documented shape: a bare field owns the selector and every option is a constant
+            key = ["f", d(st.sampled_from(["c", "a", "e", "o"]))]
+            if form == "dict":
+                return ["ch", key, ["dict", [[kk, self.const()] for kk in [0, 1, 2, 3, 5][:n + 1]]], "dict"]
+            return ["ch", key, ["list", [self.const() for _ in range(n + 2)]], form]
         if form == "dict-str":
             names = ["short", "long", "x"][:n] if n <= 3 else ["short", "long", "x", "y"]
             sel = ["ch", ["bin", "and", self.deferred(self.intexpr(depth + 1)), ["c", 1 if len(names) == 2 else 3]], ["list", [["c", nm] for nm in names]], "list"]
